@@ -53,17 +53,22 @@ def mk_trx(E, pfx="t.", fh=None, name="TRX", child_idx=0, with_clck=False, invar
     return obj
 
 
+TRXC_DELAY_MAX_MS = 60 * 1000
+
+
 def class_invariant(pfx):
     return z3.And(fz(pfx, "burst_drop_amount") >= 0, fz(pfx, "burst_drop_period") >= 1,
-                  z3.Or(fz(pfx, "_hdr_ver") == 0, fz(pfx, "_hdr_ver") == 1))
+                  z3.Or(fz(pfx, "_hdr_ver") == 0, fz(pfx, "_hdr_ver") == 1),
+                  fz(pfx, "rsp_delay_ms") >= 0, fz(pfx, "rsp_delay_ms") <= TRXC_DELAY_MAX_MS)
 
 
 def invariant_of(obj):
     """The class invariant evaluated on the object's *current* attribute values."""
     a = obj.attrs
     hv = a["data_if"].attrs["_hdr_ver"]
+    dl = models.zint(a["ctrl_if"].attrs["rsp_delay_ms"])
     return z3.And(models.zint(a["burst_drop_amount"]) >= 0, models.zint(a["burst_drop_period"]) >= 1,
-                  z3.Or(models.zint(hv) == 0, models.zint(hv) == 1))
+                  z3.Or(models.zint(hv) == 0, models.zint(hv) == 1), dl >= 0, dl <= TRXC_DELAY_MAX_MS)
 
 
 def send_msg_summary(E, func, args, kwargs):
